@@ -57,6 +57,8 @@ pub static SCENARIOS: &[Scenario] = &[
     Scenario { name: "c15", property: "C15", gen: scn_hist::gen_c15, exec: scn_hist::exec_c15 },
     #[cfg(feature = "opt")]
     Scenario { name: "c15rand", property: "C15", gen: scn_hist::gen_c15rand, exec: scn_hist::exec_c15rand },
+    #[cfg(feature = "opt")]
+    Scenario { name: "c15c18", property: "C15", gen: scn_hist::gen_c15c18, exec: scn_hist::exec_c15c18 },
     Scenario { name: "c16", property: "C16", gen: scn_hist::gen_c16, exec: scn_hist::exec_c16 },
     #[cfg(feature = "opt")]
     Scenario {
